@@ -9,7 +9,7 @@ namespace {
 using namespace BaseGraph;
 
 struct Counters {
-    uint64_t secondRoundTrips = 0, bigFiles = 0, bigTruncFiles = 0, largeIndexGraphs = 0, roundTrips = 0, bytesCompared = 0, handmade = 0, openFailures = 0, labelReads = 0, truncFiles = 0, truncCuts = 0, cutsInsideRecord = 0, cutsAtBoundary = 0,
+    uint64_t graphsWithDuplicates = 0, codecFiles = 0, secondRoundTrips = 0, bigFiles = 0, bigTruncFiles = 0, largeIndexGraphs = 0, roundTrips = 0, bytesCompared = 0, handmade = 0, openFailures = 0, labelReads = 0, truncFiles = 0, truncCuts = 0, cutsInsideRecord = 0, cutsAtBoundary = 0,
              truncThrew = 0, truncReturned = 0, zeroVertexGraphs = 0, noEdgeGraphs = 0;
     ObsCounters oc;
 } C;
@@ -64,7 +64,7 @@ template <> struct Dir<LabeledUndirectedGraph> {
 
 template <template <class...> class GT, class L> GT<L> loadBin(const std::string &p) { return io::loadBinaryEdgeList<GT, L>(p); }
 
-template <class G, class L> std::string compareLoaded(G &loaded, const GraphSpec &s, const std::map<Edge, L> &labels, const G *original) {
+template <class G, class L> std::string compareLoaded(G &loaded, const GraphSpec &s, const std::map<Edge, L> &labels, const G *original, const std::map<Edge, unsigned> *copies = nullptr) {
     std::ostringstream o;
     unsigned used = usedSize(s);
     if (loaded.getSize() != used) {
@@ -79,7 +79,10 @@ template <class G, class L> std::string compareLoaded(G &loaded, const GraphSpec
         Expect x;
         x.directed = s.directed;
         x.n = s.n;
-        for (auto &e2 : s.edges) x.e[e2] = Expect::Cell();
+        for (auto &e2 : s.edges) {
+            x.e[e2] = Expect::Cell();
+            if (copies && copies->count(e2)) x.e[e2].copies = copies->at(e2);
+        }
         e = checkEdgesOnly(loaded, x, C.oc);
     }
     if (!e.empty()) return "loaded graph: " + e;
@@ -112,6 +115,21 @@ template <template <class...> class GT, class L> void binary(Reporter &R, uint64
         labels[canon(directed, e.first, e.second)] = l;
         g.addEdge(e.first, e.second, l);
     }
+    // one written graph in nine carries forced duplicates (same label on every copy): "any graph" - one record per copy,
+    // and the copies are there again after loading
+    std::map<Edge, unsigned> copies;
+    size_t listed = s.edges.size();
+    if (!handmade && sub % 9 == 4 && s.n <= 64 && !s.edges.empty()) {
+        ++C.graphsWithDuplicates;
+        for (auto &e : s.edges)
+            if (r.chance(1, 3)) {
+                unsigned k = 1 + r.u(2);
+                copies[e] = 1 + k;
+                listed += k;
+                for (unsigned c = 0; c < k; ++c) g.addEdge(e.first, e.second, labels.at(e), true);
+            }
+    }
+    const std::map<Edge, unsigned> *cp = copies.empty() ? nullptr : &copies;
     std::string path = ioTmp(R, "g.bin");
     std::string bytes;
     R.describeCase = [&] { return "{\"class\": " + q(cls) + ", \"graph\": " + q(s.str()) + ", \"file_hex\": " + q(hexOf(bytes, 400)) + "}"; };
@@ -123,7 +141,7 @@ template <template <class...> class GT, class L> void binary(Reporter &R, uint64
             // the monitor's own encoding of what edges() enumerates
             std::string want;
             std::vector<Edge> es;
-            collectEdges(g, s.edges.size() * 2 + 8, es);
+            collectEdges(g, listed * 2 + 8, es);
             for (auto &e : es) {
                 putLE<uint32_t>(want, e.first);
                 putLE<uint32_t>(want, e.second);
@@ -131,8 +149,8 @@ template <template <class...> class GT, class L> void binary(Reporter &R, uint64
             }
             C.bytesCompared += want.size();
             size_t rec = 8 + labelSize<L>();
-            if (bytes.size() != s.edges.size() * rec) {
-                R.violation(cls + "/writeBinaryEdgeList/file-length", "file has " + std::to_string(bytes.size()) + " bytes, edges x record size = " + std::to_string(s.edges.size() * rec) + "; graph " + s.str());
+            if (bytes.size() != listed * rec) {
+                R.violation(cls + "/writeBinaryEdgeList/file-length", "file has " + std::to_string(bytes.size()) + " bytes, edges x record size = " + std::to_string(listed * rec) + "; graph " + s.str());
                 unlink(path.c_str());
                 return;
             }
@@ -181,7 +199,7 @@ template <template <class...> class GT, class L> void binary(Reporter &R, uint64
             R.violation(cls + "/loadBinaryEdgeList/not-deterministic", "loading the same file twice gives unequal graphs; graph " + s.str());
             return;
         }
-        std::string err = compareLoaded<GT<L>, L>(loaded, s, labels, &g);
+        std::string err = compareLoaded<GT<L>, L>(loaded, s, labels, &g, cp);
         if (!err.empty()) { R.violation(cls + (handmade ? "/binary-hand-made-file/" : "/binary-round-trip/") + err.substr(0, err.find_first_of(":(")), err + "; graph " + s.str() + " file " + hexOf(bytes)); return; }
         if (sub % 3 == 0) {
             // a loaded graph is a graph: writing it and loading it again must round-trip as well
@@ -189,7 +207,7 @@ template <template <class...> class GT, class L> void binary(Reporter &R, uint64
             GT<L> loaded2 = loadBin<GT, L>(path);
             unlink(path.c_str());
             ++C.secondRoundTrips;
-            err = compareLoaded<GT<L>, L>(loaded2, s, labels, &g);
+            err = compareLoaded<GT<L>, L>(loaded2, s, labels, &g, cp);
             if (!err.empty()) R.violation(cls + "/binary-round-trip-of-a-loaded-graph/" + err.substr(0, err.find_first_of(":(")), err + "; graph " + s.str());
         }
     } catch (std::exception &ex) {
@@ -273,13 +291,32 @@ void openfailPath(Reporter &R, const std::string &path) {
 }
 
 // ---- C15 (a): truncation ----------------------------------------------------
+// User-supplied label codecs (both IO routines take one): the record size is then the codec's, not sizeof(label).
+// gCodec 1: an int label kept in 2 bytes; 2: in 8 bytes; 0: the library's default codec. Only used with int labels.
+int gCodec = 0;
+size_t codecBytes(size_t dflt) { return gCodec == 1 ? 2 : gCodec == 2 ? 8 : dflt; }
+void codecWrite(std::ofstream &f, int v) {
+    if (gCodec == 1) { int16_t x = (int16_t)v; f.write((const char *)&x, 2); }
+    else { int64_t x = v; f.write((const char *)&x, 8); }
+}
+std::ifstream &codecRead(std::ifstream &f, int &v) {
+    if (gCodec == 1) { int16_t x = 0; if (f.read((char *)&x, 2)) v = x; }
+    else { int64_t x = 0; if (f.read((char *)&x, 8)) v = (int)x; }
+    return f;
+}
+template <template <class...> class GT, class L> GT<L> loadTrunc(const std::string &p) {
+    if constexpr (std::is_same<L, int>::value) {
+        if (gCodec) return io::loadBinaryEdgeList<GT, L>(p, codecRead);
+    }
+    return loadBin<GT, L>(p);
+}
 template <template <class...> class GT, class L> std::string truncOne(const std::string &path, const std::string &full, size_t cut, bool directed, int *outcome) {
-    size_t rec = 8 + labelSize<L>();
+    size_t rec = 8 + codecBytes(labelSize<L>());
     size_t complete = cut / rec;
     std::ostringstream o;
     std::string what;
     GT<L> loaded(0);
-    Exc ex = classify([&] { loaded = loadBin<GT, L>(path); }, &what);
+    Exc ex = classify([&] { loaded = loadTrunc<GT, L>(path); }, &what);
     if (ex == EX_UNKNOWN) return "exception: loader threw something not derived from std::exception";
     if (ex != EX_NONE) {
         *outcome = 1;
@@ -299,7 +336,7 @@ template <template <class...> class GT, class L> std::string truncOne(const std:
         Edge key = canon(directed, a, b);
         if (x.e.count(key)) x.e[key].copies++;
         else x.e[key] = Expect::Cell();
-        labelBytes[key] = full.substr(k * rec + 8, labelSize<L>());
+        labelBytes[key] = full.substr(k * rec + 8, rec - 8);
     }
     // the claim is about edges ("exactly the edges of the complete records"); vertices beyond them carry no edge, fewer cannot hold them
     if (loaded.getSize() < n) {
@@ -317,7 +354,15 @@ template <template <class...> class GT, class L> std::string truncOne(const std:
     if constexpr (!std::is_same<L, NoLabel>::value)
         for (auto &kv : labelBytes) {
             L got = loaded.getEdgeLabel(kv.first.first, kv.first.second, false);
-            if (memcmp(&got, kv.second.data(), sizeof(L)) != 0) {
+            L stored{};
+            if constexpr (std::is_same<L, int>::value) {
+                if (gCodec == 1) { int16_t x; memcpy(&x, kv.second.data(), 2); stored = x; }
+                else if (gCodec == 2) { int64_t x; memcpy(&x, kv.second.data(), 8); stored = (int)x; }
+                else memcpy(&stored, kv.second.data(), sizeof(L));
+            } else {
+                memcpy(&stored, kv.second.data(), sizeof(L));
+            }
+            if (memcmp(&got, &stored, sizeof(L)) != 0) {
                 o << "returned-graph: label of (" << kv.first.first << "," << kv.first.second << ") is not the one in the complete record; cut at " << cut;
                 return o.str();
             }
@@ -334,12 +379,27 @@ template <template <class...> class GT, class L> void truncate(Reporter &R, uint
     while (s.edges.empty()) s = ioSpec(r, directed);
     if (big) ++C.bigTruncFiles;
     GT<L> g(s.n);
-    for (auto &e : insertionOrder(s, 2, r)) g.addEdge(e.first, e.second, BL<L>::make(1 + r.below(1ULL << 40)));
+    for (auto &e : insertionOrder(s, 2, r)) {
+        L l = BL<L>::make(1 + r.below(1ULL << 40));
+        if constexpr (std::is_same<L, int>::value) {
+            if (gCodec == 1) l = (int)(int16_t)l; // what the 2-byte codec can hold
+        }
+        g.addEdge(e.first, e.second, l);
+    }
     std::string path = ioTmp(R, "t.bin");
-    io::writeBinaryEdgeList(g, path);
+    bool viaCodec = false;
+    if constexpr (std::is_same<L, int>::value) {
+        if (gCodec) {
+            io::writeBinaryEdgeList<GT, int>(g, path, std::function<void(std::ofstream &, int)>(codecWrite));
+            viaCodec = true;
+            ++C.codecFiles;
+            cls += gCodec == 1 ? "+codec(2 bytes)" : "+codec(8 bytes)";
+        }
+    }
+    if (!viaCodec) io::writeBinaryEdgeList(g, path);
     std::string full = readBytes(path);
     ++C.truncFiles;
-    size_t rec = 8 + labelSize<L>();
+    size_t rec = 8 + codecBytes(labelSize<L>());
     size_t curCut = 0;
     R.describeCase = [&] { return "{\"class\": " + q(cls) + ", \"graph\": " + q(s.str()) + ", \"file_hex\": " + q(hexOf(full, 400)) + ", \"cut_at\": " + std::to_string(curCut) + "}"; };
     R.distinct.insert(mix64(s.hash(), hashStr(cls)));
@@ -383,6 +443,8 @@ template <template <class...> class GT, class L> void truncate(Reporter &R, uint
 
 void flush(Reporter &R) {
     C.oc.flush(R);
+    R.count("written_graphs_carrying_forced_duplicates", C.graphsWithDuplicates);
+    R.count("truncated_files_written_through_a_user_codec", C.codecFiles);
     R.count("binary_round_trips", C.roundTrips);
     R.count("round_trips_of_a_loaded_graph", C.secondRoundTrips);
     R.count("graphs_with_large_vertex_indices", C.largeIndexGraphs);
@@ -453,10 +515,14 @@ struct Init {
                                    uint64_t s2 = sub / 22;
                                    if (mode == "truncate") {
                                        // label sizes 0/1/2/4/8
-                                       static const unsigned kinds[] = {0, 1, 3, 4, 9, 8, 6};
-                                       kind = kinds[sub % 7];
-                                       directed = (sub / 7) % 2 == 0;
-                                       s2 = sub / 14;
+                                       // entries 7 and 8: int labels through a user codec of 2 / 8 bytes per label
+                                       static const unsigned kinds[] = {0, 1, 3, 4, 9, 8, 6, 4, 4};
+                                       kind = kinds[sub % 9];
+                                       gCodec = sub % 9 == 7 ? 1 : sub % 9 == 8 ? 2 : 0;
+                                       directed = (sub / 9) % 2 == 0;
+                                       s2 = sub / 18;
+                                   } else {
+                                       gCodec = 0;
                                    }
                                    if (directed) byLabel<LabeledDirectedGraph>(R, mode, kind, s2, isolate);
                                    else byLabel<LabeledUndirectedGraph>(R, mode, kind, s2, isolate);
